@@ -1,5 +1,6 @@
 /* libshortwrite.so -- every write() to a regular file transfers at most SHORTWRITE_CAP bytes (a legal short write that
- * succeeds); used by C20 to exercise "write all of it" loops.  Preloaded into snoopyctl only. */
+ * succeeds); used by C20 to exercise "write all of it" loops.  With SHORTREAD_CAP every read() from a regular file returns at most
+ * that many bytes (a legal short read; stdio's own reads do not come through here) -- used by C08. */
 #define _GNU_SOURCE
 #include <dlfcn.h>
 #include <stdlib.h>
@@ -14,4 +15,13 @@ ssize_t write(int fd, const void *buf, size_t n)
     struct stat sb;
     if (cap > 0 && n > (size_t) cap && fstat(fd, &sb) == 0 && S_ISREG(sb.st_mode)) n = (size_t) cap;
     return syscall(SYS_write, fd, buf, n);
+}
+
+ssize_t read(int fd, void *buf, size_t n)
+{
+    static long cap = -1;
+    if (cap < 0) { const char *e = getenv("SHORTREAD_CAP"); cap = e ? atol(e) : 0; }
+    struct stat sb;
+    if (cap > 0 && n > (size_t) cap && fstat(fd, &sb) == 0 && S_ISREG(sb.st_mode)) n = (size_t) cap;
+    return syscall(SYS_read, fd, buf, n);
 }
